@@ -161,6 +161,15 @@ Theorem C07_lw_batch_rowwise : forall b c e rows rows',
 Proof. exact lw_evidence_node_rowwise. Qed.
 Print Assumptions C07_lw_batch_rowwise.
 
+(* Gibbs chain (GibbsSampling.sample): started from a state whose every value is a state number of its variable
+   (0 <= s < card: the verdict MarkovChain._check_state must reach, run_c07_start_ok), the chain's first row IS the
+   start state and every value of every row is a state number of its column, for every oracle. *)
+Theorem C07_gibbs_rows_valid : forall b fs vars size start o rows o',
+  gibbs_sample b fs vars size start o = Ok (rows, o') -> row_valid b vars start ->
+  Forall (row_valid b vars) rows /\ hd_error rows = Some start.
+Proof. exact gibbs_sample_valid. Qed.
+Print Assumptions C07_gibbs_rows_valid.
+
 (* simulate(): the CPDs the wrapper installs are proper columns, so the forward / rejection theorems apply to the
    network it samples from: an intervened variable gets a parent-free point mass on its do-value (sum 1, for
    state names without repetition that contain the value - what simulate checks), and the auxiliary child of a
